@@ -1399,7 +1399,12 @@ class C20(Property):
             detail = f"property violated: {self.explain(case, obs, spec)}"
         elif not corr:
             diff = [k for k in mine if mine[k] != theirs[k]]
-            detail = f"model and implementation differ in {diff}: model {theirs} vs implementation {mine}"
+            note = ""
+            if diff == ["trace"] and [e for e in mine["trace"] if e != "logerr"] == \
+                    [e for e in theirs["trace"] if e != "logerr"]:
+                note = " (only the error log differs: the failure still reaches the caller, so the property's " \
+                       "'reported' holds; the logging behaviour of the modelled code has changed)"
+            detail = f"model and implementation differ in {diff}{note}: model {theirs} vs implementation {mine}"
         if not spec["model_ok"] and not detail:
             detail = "the model itself violates the spec on this input"
         tags = [case["kind"]]
